@@ -39,6 +39,9 @@ func genC05(r *Rng, tier string, idx int) *Plan {
 	if idx%5 == 4 {
 		return genC05Actors(r, tier, p)
 	}
+	if idx%5 == 0 || idx%5 == 1 {
+		return genC05Pair(r, p, idx)
+	}
 	p.Profile = "conc"
 	nkeys := r.Range(1, 3)
 	g := &GenCfg{Keys: c05Keys[:nkeys], NoRandom: true, NowMs: 946684800000}
@@ -64,6 +67,66 @@ func genC05(r *Rng, tier string, idx int) *Plan {
 	}
 	p.Knobs["tcp"] = int64(r.Intn(2))
 	p.Dice = drawDice(r, 64)
+	return p
+}
+
+// genC05Pair: one target command (every command gets its turn) against an adversary on the same key:
+// the interleavings most likely to expose a handler that is not atomic.
+func genC05Pair(r *Rng, p *Plan, idx int) *Plan {
+	p.Profile = "conc"
+	var cands []*CmdSpec
+	for _, sp := range allSpecs {
+		if sp.Random || sp.Name == "TTL" || sp.Name == "FLUSHDB" || sp.Name == "FLUSHALL" || sp.Name == "RANDOMKEY" {
+			continue
+		}
+		cands = append(cands, sp)
+	}
+	target := cands[(idx/5)%len(cands)]
+	key := "k1"
+	g := &GenCfg{Keys: []string{key}, NoRandom: true, NowMs: 946684800000}
+	// seed the key with a value of the family the target works on (sometimes absent, sometimes another type)
+	creator := map[string]string{"generic": "SET", "string": "SET", "hash": "HSET", "list": "RPUSH", "set": "SADD", "zset": "ZADD"}[target.Family]
+	switch r.Intn(6) {
+	case 0:
+	case 1:
+		p.Init = append(p.Init, Op{Args: specByName[Pick(r, []string{"SET", "HSET", "RPUSH", "SADD", "ZADD"})].Gen(r, g)})
+	default:
+		a := specByName[creator].Gen(r, g)
+		var b []string
+		for _, x := range a {
+			switch x {
+			case "NX", "XX", "GT", "LT", "CH", "GET":
+				continue
+			}
+			b = append(b, x)
+		}
+		p.Init = append(p.Init, Op{Args: b})
+		if r.Bool() {
+			p.Init = append(p.Init, Op{Args: specByName[creator].Gen(r, g)})
+		}
+	}
+	p.Knobs["clients"] = 2
+	p.Ops = append(p.Ops, Op{C: 0, Args: target.Gen(r, g)})
+	var adv []string
+	switch r.Intn(7) {
+	case 0:
+		adv = []string{"DEL", key}
+	case 1:
+		adv = []string{"FLUSHALL"}
+	case 2:
+		adv = []string{"SET", key, "zz"}
+	case 3:
+		adv = target.Gen(r, g)
+	case 4:
+		adv = specByName[Pick(r, []string{"HSET", "RPUSH", "SADD", "ZADD", "APPEND", "INCR"})].Gen(r, g)
+	case 5:
+		adv = []string{"EXPIRE", key, "100"}
+	default:
+		adv = specByName[creator].Gen(r, g)
+	}
+	p.Ops = append(p.Ops, Op{C: 1, Args: adv})
+	p.Knobs["tcp"] = int64(r.Intn(2))
+	p.Dice = drawDice(r, 48)
 	return p
 }
 
@@ -109,6 +172,7 @@ func runC05(t *testing.T, p *Plan) *Outcome {
 	var orders [][]int
 	var blame []string
 	var panicSig string
+	matched := false
 	br := RunBubble(t, func() {
 		s := NewSim()
 		s.logOn = true
@@ -260,22 +324,38 @@ func runC05(t *testing.T, p *Plan) *Outcome {
 		// ---- serial reference executions: all interleavings of the per-client sequences
 		orders = mergeOrders(perClient)
 		id := 10
-		for _, ord := range orders {
-			id++
-			inst2, cs2 := boot(id)
-			if inst2 == nil {
-				continue
+		runSerials := func() bool {
+			for _, ord := range orders {
+				id++
+				inst2, cs2 := boot(id)
+				if inst2 == nil {
+					continue
+				}
+				ex := c05Exec{results: make([]string, len(p.Ops)), steps: make([]int, len(p.Ops))}
+				for _, i := range ord {
+					before := s.ksCalls.Load()
+					r := cs2[p.Ops[i].C%nclients].DoSync(p.Ops[i].Args...)
+					ex.steps[i] = int(s.ksCalls.Load() - before)
+					ex.results[i] = canonResult(p.Ops[i].Args, r)
+				}
+				ex.data = DataMap(inst2.DB.VerifDump(), false)
+				serials = append(serials, ex)
+				s.KillInstance(id)
+				if equalStrings(ex.results, conc.results) && mapsEqual(ex.data, conc.data) {
+					return true
+				}
 			}
-			ex := c05Exec{results: make([]string, len(p.Ops)), steps: make([]int, len(p.Ops))}
-			for _, i := range ord {
-				before := s.ksCalls.Load()
-				r := cs2[p.Ops[i].C%nclients].DoSync(p.Ops[i].Args...)
-				ex.steps[i] = int(s.ksCalls.Load() - before)
-				ex.results[i] = canonResult(p.Ops[i].Args, r)
+			return false
+		}
+		matched = runSerials()
+		// Some handlers iterate over Go maps: the same serial order can give different outcomes from one
+		// execution to the next. Before calling an outcome non-serializable the serial orders are therefore
+		// repeated; the concurrent outcome only has to be produced by one of them once.
+		for rep := 0; rep < 40 && !matched; rep++ {
+			matched = runSerials()
+			if len(serials) > len(orders) {
+				serials = serials[:len(orders)] // keep the first round for the report
 			}
-			ex.data = DataMap(inst2.DB.VerifDump(), false)
-			serials = append(serials, ex)
-			s.KillInstance(id)
 		}
 		for i := range p.Ops {
 			if interleaved[i] {
@@ -304,12 +384,7 @@ func runC05(t *testing.T, p *Plan) *Outcome {
 	o.Class = strings.Join(names, "+")
 	o.Sample = map[string]any{"concurrent_replies": conc.results, "serial_orders": len(orders)}
 	// ---- compare
-	for _, ex := range serials {
-		if equalStrings(ex.results, conc.results) && mapsEqual(ex.data, conc.data) {
-			return o
-		}
-	}
-	if len(serials) == 0 {
+	if matched || len(serials) == 0 {
 		return o
 	}
 	// no serial order explains the concurrent outcome
